@@ -22,7 +22,7 @@ SPEC_FUNCS = {
     "log_pos", "yielded", "exists_event", "all_events", "isinstance_",
     "truthy", "mem", "count_held", "seq", "select", "glob0", "obj", "strip",
     "split", "join", "cfg", "reaches", "no_event_between", "log_len", "the",
-    "split_ws", "as_", "tail", "has_loop", "ordered", "count_events", "pre", "app_call", "dynattr", "seq1", "prefix_of", "unbox", "is_bound", "obj_id", "cls_is",
+    "split_ws", "as_", "tail", "has_loop", "ordered", "count_events", "pre", "app_call", "dynattr", "seq1", "prefix_of", "unbox", "is_bound", "obj_id", "cls_is", "cls_id_is",
 }
 
 
@@ -375,6 +375,9 @@ class SpecMixin:
             if st.gen_out is None:
                 raise EngineError("yielded() outside a generator")
             return VTuple(list(st.gen_out))
+        if name == "cls_id_is":
+            # a recorded exception-class id is (a subclass of) the named class
+            return VBool(self.schema.exc_isinstance(term_of(val(a[0])), cstr(a[1])))
         if name == "cls_is":
             # exact dynamic class of a reference
             return VBool(st.cls_of(term_of(val(a[0]))) == const_id(f"class:{cstr(a[1])}"))
